@@ -15,7 +15,7 @@ for d in seeded/$G/; do
   name=$(basename "$d")
   checks=$(grep -oE '^check \w+: exit 1' "$d/confirmed.txt" 2>/dev/null | awk '{print $2}' | tr -d ':' | sort -u | tr '\n' ' ')
   [ -z "$checks" ] && { echo "$name: no catching check on record"; bad=$((bad+1)); continue; }
-  if ! git -C "$R" apply "$d/patch.diff" 2>/dev/null; then echo "$name: PATCH no longer applies"; bad=$((bad+1)); continue; fi
+  if ! git -C "$R" apply "$PWD/$d/patch.diff" 2>/dev/null; then echo "$name: PATCH no longer applies"; bad=$((bad+1)); continue; fi
   caught=""
   for id in $checks; do
     out=$(./check "$id" quick 2>&1); rc=$?
